@@ -5,6 +5,7 @@ package verifbench
 // handler; respond answers in whatever protocol the transcoder chose to speak.
 
 import (
+	"errors"
 	"encoding/binary"
 	"encoding/base64"
 	"encoding/json"
@@ -27,6 +28,7 @@ type BackendView struct {
 	EscapedPath string
 	Body        []byte
 	ReadErr     string
+	Spin        bool // Body.Read stopped making progress without reporting EOF or an error
 	ReadChunks  int
 	Protocol    string // connect | grpc | grpcweb | rest | ""
 	Sub         string // connect: unary | get | stream
@@ -64,6 +66,11 @@ func (v *BackendView) triple() string {
 	return p + "+" + v.Codec + "+" + v.Compression
 }
 
+// errSpinningRead: Body.Read made no progress for 1000 calls in a row although it reported neither
+// data nor an error. io.ReadAll, io.Copy and bytes.Buffer.ReadFrom would spin on such a body for
+// ever (or panic), so this counts as a wedge of the exchange.
+var errSpinningRead = errors.New("request body Read returned (0, nil) 1000 times in a row: a standard reader would spin forever")
+
 func readAll(r io.Reader, bufSizes []int) (data []byte, chunks int, err error) {
 	i := 0
 	zero := 0
@@ -89,7 +96,7 @@ func readAll(r io.Reader, bufSizes []int) (data []byte, chunks int, err error) {
 		if n == 0 {
 			zero++
 			if zero > 1000 {
-				return data, chunks, fmt.Errorf("Read returned (0, nil) 1000 times")
+				return data, chunks, errSpinningRead
 			}
 		} else {
 			zero = 0
@@ -118,6 +125,7 @@ func observeBackendRequest(sc *Scenario, w http.ResponseWriter, r *http.Request)
 		v.Body, v.ReadChunks, err = readAll(r.Body, sc.Backend.ReadBuf)
 		if err != nil {
 			v.ReadErr = err.Error()
+			v.Spin = errors.Is(err, errSpinningRead)
 		}
 	}
 	classifyBackendRequest(sc, v, r)
